@@ -49,7 +49,10 @@ def mutate_text(p, rnd):
 
 
 DIRECTED = ["", "()", "(())", "()()", "a()", "()a", "a()b", "(|)", "a||b", "||", "(a|)b", "a(|b)", "()*", "()+", "()?", "(a|())",
-            "a{1}", "(){2}", "[a]()", "(()|a)*"]
+            "a{1}", "(){2}", "[a]()", "(()|a)*",
+            # redundant groups around alternations, sets and single symbols, two and three levels deep
+            "((ab|c))", "a((bc|a))c", "(([ab]c|a))+", "(((a)))", "(([ab]))", "((a|bc))", "(([ab])+)", "(((ab|c)))b", "((a)(b|c))",
+            "((ab|c)*)", "(((a|b)c|a))?"]
 # an escaped backslash in front of a letter that would otherwise be a shortcut, and escaped / plain spaces (judged on
 # strings over the characters these patterns talk about)
 DIRECTED2 = [r"\\d", r"\\s", r"\\w", r"a\\d", r"\\\d", r"\\\\d", r"(\\|a)\w", r"[\\d]", r"[\\]d", r"\ ", r"a\ b", r"a b", r"[ ]a", r"\d\ ",
